@@ -400,7 +400,14 @@ class InterpBase:
 
     def compare(self, fr, op, a, b):
         if isinstance(op, (ast.Eq, ast.NotEq)):
-            e = val_eq(a, b)
+            e = None
+            if isinstance(a, (RecV, Obj)) and not fr.spec:
+                ci = a.cls if isinstance(a, Obj) else self._class_by_name(fr, a.cls)
+                fn = self.index.find_method(ci, "__eq__") if ci is not None else None
+                if fn is not None:
+                    e = truth(self.call_function(fn, [a, b], {}, fr))
+            if e is None:
+                e = val_eq(a, b)
             return e if isinstance(op, ast.Eq) else znot(e)
         if isinstance(op, (ast.Is, ast.IsNot)):
             if isinstance(a, OptV) and b is None:
